@@ -57,6 +57,18 @@ class Slice:
         return "Slice(%x,%d,%d,%d)" % (id(self.arr), self.off, self.len, self.cap)
 
 
+class Opaque:
+    """byte slice of symbolic length whose contents are not tracked (size-accounting harnesses only):
+    reads return fresh bytes, writes are dropped."""
+    __slots__ = ("len",)
+
+    def __init__(self, ln):
+        self.len = ln
+
+    def __repr__(self):
+        return "Opaque(%s)" % (self.len,)
+
+
 class Tup(list):
     pass
 
